@@ -32,6 +32,10 @@ type iface struct {
 	v value
 }
 
+// nativeFn is a function value implemented by the executor itself (e.g. the swapper that
+// reflectlite.Swapper would return); callable wherever a Go func value is.
+type nativeFn func(x *Exec, fr *frame, args []value) value
+
 type closure struct {
 	Fn  *ssa.Function
 	Env []value
